@@ -5,8 +5,8 @@ From XV Require Import Lib.Sx.
 Import ListNotations.
 Open Scope Z_scope.
 
-Definition entry := (Z * str)%type.
-Definition queue := list entry.
+Notation entry := (Z * str)%type (only parsing).
+Notation queue := (list (Z * str)%type) (only parsing).
 
 Inductive qop :=
 | QPush (s : str) | QPop | QPopN (k : Z) | QPeek | QPeekN (k : Z) | QEmpty.
@@ -20,9 +20,20 @@ Inductive qout :=
 Definition last_id (q : queue) : option Z :=
   match rev q with [] => None | (i, _) :: _ => Some i end.
 
-(* Push: pushIdx := 1, or last.Id + 1 on a non-empty queue *)
-Definition q_push (q : queue) (s : str) : queue :=
-  q ++ [(match last_id q with None => 1 | Some i => i + 1 end, s)].
+(* The queue object: Uslice and the unexported lastId (highest sequence number ever
+   assigned, so that numbering continues after acknowledgements emptied the queue). *)
+Notation qstate := (list (Z * str) * Z)%type (only parsing).
+Definition q_items (st : qstate) : queue := fst st.
+
+(* Push: pushIdx := lastId + 1, or last.Id + 1 when the tail entry's Id is not below it *)
+Definition push_id (st : qstate) : Z :=
+  let idx := snd st + 1 in
+  match last_id (fst st) with
+  | Some i => if idx <=? i then i + 1 else idx
+  | None => idx
+  end.
+Definition q_push (st : qstate) (s : str) : qstate :=
+  (fst st ++ [(push_id st, s)], push_id st).
 
 (* PeekN: nil when n <= 0 or the queue is empty; else first min(n,len) *)
 Definition q_peekn (q : queue) (k : Z) : list entry :=
@@ -42,21 +53,24 @@ Definition many (l : list entry) : qout :=
 Definition one (o : option entry) : qout :=
   match o with None => QNil | Some e => QOne e end.
 
-Definition q_step (q : queue) (o : qop) : queue * qout :=
+Definition q_step (st : qstate) (o : qop) : qstate * qout :=
+  let q := fst st in
   match o with
-  | QPush s => (q_push q s, QNil)
-  | QPop => let '(r, q') := q_pop q in (q', one r)
-  | QPopN k => let '(r, q') := q_popn q k in (q', many r)
-  | QPeek => (q, one (q_peek q))
-  | QPeekN k => (q, many (q_peekn q k))
-  | QEmpty => (q, QBool (match q with [] => true | _ => false end))
+  | QPush s => (q_push st s, QNil)
+  | QPop => let '(r, q') := q_pop q in ((q', snd st), one r)
+  | QPopN k => let '(r, q') := q_popn q k in ((q', snd st), many r)
+  | QPeek => (st, one (q_peek q))
+  | QPeekN k => (st, many (q_peekn q k))
+  | QEmpty => (st, QBool (match q with [] => true | _ => false end))
   end.
 
-(* run a history from the empty queue, returning every (result, queue) *)
-Fixpoint q_run (q : queue) (ops : list qop) : list (qout * queue) :=
+Definition q_init : qstate := ([], 0).
+
+(* run a history, returning every (result, queue contents) *)
+Fixpoint q_run (st : qstate) (ops : list qop) : list (qout * queue) :=
   match ops with
   | [] => []
-  | o :: ops' => let '(q', r) := q_step q o in (r, q') :: q_run q' ops'
+  | o :: ops' => let '(st', r) := q_step st o in (r, fst st') :: q_run st' ops'
   end.
 
 (* ---- reference FIFO: a plain list of payloads ---- *)
